@@ -74,7 +74,41 @@ fn mk(name: String, cap: Cap, class: Class, ctor: Flavour, via: Conv, threads: V
         via,
         threads,
         env,
+        pre: 0,
     }
+}
+
+/// The same programs with thread 0 running `prefix` first, alone (a
+/// non-initial channel state: values buffered, the lazily flipped wait-list
+/// kind, a cancelled waiter ...)
+fn with_prefix(ps: Vec<Program>, prefix: &[Op], tagname: &str) -> Vec<Program> {
+    ps.into_iter()
+        .filter_map(|mut p| {
+            let mut ops = prefix.to_vec();
+            ops.extend(p.threads[0].ops.iter().copied());
+            if !well_formed(&ops) {
+                return None;
+            }
+            // thread 0 needs the handles its prefix uses
+            let needs_s = ops.iter().any(|o| o.side() == Some(Side::S));
+            let needs_r = ops.iter().any(|o| o.side() == Some(Side::R));
+            let fl = p.threads[0].s.or(p.threads[0].r).unwrap_or(S);
+            if needs_s && p.threads[0].s.is_none() {
+                p.threads[0].s = Some(fl);
+            }
+            if needs_r && p.threads[0].r.is_none() {
+                p.threads[0].r = Some(fl);
+            }
+            p.threads[0].ops = ops;
+            p.pre = prefix.len();
+            p.name = format!("{}+pre[{}]", p.name, tagname);
+            if closed(&p) {
+                Some(p)
+            } else {
+                None
+            }
+        })
+        .collect()
 }
 
 fn opname(o: &Op) -> String {
@@ -767,6 +801,30 @@ fn c03(thorough: bool) -> Suite {
         &sync_only(2),
         &[env(2, 1, None, pb2(thorough))],
     ));
+    // the same single-op pairs started from non-initial states: a value
+    // already buffered, the wait-list kind flag flipped by an earlier receive,
+    // a cancelled receiver / sender left behind
+    {
+        let base = core2(
+            "c03-pre",
+            &[Op::Send, Op::TrySend, Op::TrySendO, Op::TrySendRt, Op::SendT(0), Op::Close(Side::S)],
+            &[Op::Recv, Op::TryRecv, Op::TryRecvRt, Op::RecvT(0), Op::Drain(VecState::Spare), Op::Next, Op::Close(Side::R)],
+            1,
+            1,
+            &[Cap::B(1), Cap::B(2), Cap::Unbounded],
+            &[Class::P],
+            &sync_only(2),
+            &[env(2, 1, None, UNB)],
+        );
+        for (name, pre) in [
+            ("send", vec![Op::TrySend]),
+            ("send,recv", vec![Op::TrySend, Op::TryRecv]),
+            ("cancelled-recv", vec![Op::FRecv(0), Op::Poll(0, 0), Op::FDrop(0)]),
+            ("cancelled-send", vec![Op::TrySend, Op::TrySend, Op::FSend(0), Op::Poll(0, 0), Op::FDrop(0), Op::TryRecv]),
+        ] {
+            ps.extend(with_prefix(base.clone(), &pre, name));
+        }
+    }
     ps.extend(three_sends("c03-3sends", thorough, Class::P));
     // the stream
     ps.extend(product(
@@ -2191,6 +2249,29 @@ fn c19(thorough: bool) -> Suite {
         &[env(2, 1, None, UNB)],
         false,
     ));
+    // drain racing with senders, started from non-initial states
+    {
+        let base = product(
+            "c19-pre",
+            &[
+                seqs_upto(&[Op::Send, Op::TrySend, Op::SendT(2)], 2),
+                vs.iter().map(|v| vec![Op::Drain(*v)]).collect(),
+            ],
+            &[Cap::B(1), Cap::B(2), Cap::Unbounded],
+            &[Class::DL],
+            &sync_only(2),
+            &[(S, Conv::Clone)],
+            &[env(2, 1, None, pb2(thorough))],
+            false,
+        );
+        for (name, pre) in [
+            ("send,recv", vec![Op::TrySend, Op::TryRecv]),
+            ("send,send,recv", vec![Op::TrySend, Op::TrySend, Op::TryRecv]),
+            ("cancelled-recv", vec![Op::FRecv(0), Op::Poll(0, 0), Op::FDrop(0)]),
+        ] {
+            ps.extend(with_prefix(base.clone(), &pre, name));
+        }
+    }
     // drain racing with senders (sync blocked / timed / try)
     ps.extend(product(
         "c19-race",
